@@ -71,7 +71,11 @@ func (c *c05Ctx) end(err error) {
 
 var c05Draws = []float64{0, 0.999999}
 
-var c05Outcomes = []string{"ok", "transient", "permanent", "wrapped-permanent", "joined-permanent", "throttle0", "throttle1", "throttle10", "partial", "partial-throttle10", "attempt-expired"}
+var c05Outcomes = []string{"ok", "transient", "permanent", "wrapped-permanent", "joined-permanent", "throttle0", "throttle1", "throttle10", "partial", "partial-throttle10", "attempt-expired", "slow-transient"}
+
+// an attempt normally takes no virtual time; the "slow-transient" one takes this long before it fails (a backend that hangs
+// until some per-attempt timeout): the elapsed-time budget and the deadline count from the moment the request was taken
+const c05Slow = 2 * time.Second
 var c05Wakes = []string{"timer", "shutdown", "cancel"}
 
 type c05Cfg struct {
@@ -162,6 +166,9 @@ func c05Body(cfg c05Cfg, maxAttempts int, res *c05Res) func() {
 			switch o {
 			case "transient":
 				return errors.New("transient")
+			case "slow-transient":
+				vs.Advance(c05Slow) // no timer is armed while an attempt is in progress
+				return errors.New("transient after a long call")
 			case "attempt-expired":
 				// "context expiry" as a backend outcome: the ATTEMPT's own context (per-attempt timeout) ran out, the request's
 				// context is alive - an ordinary transient failure
@@ -286,6 +293,9 @@ func c05Ref(cfg c05Cfg, res *c05Res) string {
 		}
 		o := res.outs[i]
 		var throttle time.Duration = -1
+		if o == "slow-transient" {
+			t += c05Slow // the failure is known this much later; the next attempt's fit is judged from then
+		}
 		switch o {
 		case "ok":
 			return finish("nil")
